@@ -731,9 +731,10 @@ func parseMatchRules(pBlock func(ParseState) frt.Tuple2[ParseState, Block], targ
 }
 
 func parseMatchExpr(pExpr func(ParseState) frt.Tuple2[ParseState, Expr], pBlock func(ParseState) frt.Tuple2[ParseState, Block], ps ParseState) frt.Tuple2[ParseState, MatchExpr] {
-	ps2, target := frt.Destr2(frt.Pipe(frt.Pipe(frt.Pipe(psConsume(New_TokenType_MATCH, ps), pExpr), (func(_r0 frt.Tuple2[ParseState, Expr]) frt.Tuple2[ParseState, Expr] {
+	ps2, target0 := frt.Destr2(frt.Pipe(frt.Pipe(frt.Pipe(psConsume(New_TokenType_MATCH, ps), pExpr), (func(_r0 frt.Tuple2[ParseState, Expr]) frt.Tuple2[ParseState, Expr] {
 		return MapL((func(_r0 ParseState) ParseState { return psConsume(New_TokenType_WITH, _r0) }), _r0)
 	})), (func(_r0 frt.Tuple2[ParseState, Expr]) frt.Tuple2[ParseState, Expr] { return MapL(psSkipEOL, _r0) })))
+	target := InferExpr(ps2.tvc, target0)
 	ps3, rules := frt.Destr2(parseMatchRules(pBlock, target, ps2))
 	return frt.Pipe(MatchExpr{Target: target, Rules: rules}, (func(_r0 MatchExpr) frt.Tuple2[ParseState, MatchExpr] { return PairL(ps3, _r0) }))
 }
